@@ -131,9 +131,9 @@ theorem stepLoop_owner {tail : List Sub} {s : St} (h : OwnerInv tail s) : OwnerI
     | die hp _ _ _ _ _ _ =>
       have := hq.goneReq (Or.inr (Or.inr (by simp [hp, exited]))); simp [hf] at this
   have keepUnborn : s.phase = .unborn → (stepLoop s).phase = .unborn := by
-    intro hp; unfold stepLoop; simp [hp]
+    intro hp; unfold stepLoop stepLoopFD; simp [hp]
   have keepDead : s.phase = .dead → (stepLoop s).phase = .dead := by
-    intro hp; unfold stepLoop; simp [hp]
+    intro hp; unfold stepLoop stepLoopFD; simp [hp]
   unfold OwnerOk at hw ⊢
   rw [t1, hqr]
   cases hpc : (s.thr 0).pc <;> simp only [hpc] at hw ⊢
